@@ -458,6 +458,7 @@ are:
 """
 
 import dataclasses
+import errno
 import io
 import logging
 import os
@@ -803,12 +804,19 @@ class _FileRequestHandlerBase(DataSourceAware):
             if os.path.isdir(file):
                 return None, file
             raise
-        except (FileNotFoundError, IsADirectoryError):
+        except (FileNotFoundError, IsADirectoryError, NotADirectoryError):
             # We treat a request to a file that is actually a directory like a
             # request to a file that does not exist. This is consistent with
             # our behavior that we do not allow a request with an extra path
-            # that has a trailing slash.
+            # that has a trailing slash. The same applies to a request for a
+            # path below something that is not a directory.
             return None, file
+        except OSError as err:
+            # A path component that is longer than the file system allows
+            # cannot name an existing file.
+            if err.errno == errno.ENAMETOOLONG:
+                return None, file
+            raise
 
     def _init_request_path(self, config):
         request_path = config["request_path"]
